@@ -136,6 +136,10 @@ func (e *CallExpr) String() string {
 		args = append(args, e.String())
 	}
 	if len(args) > 0 && e.Ellipsis.IsValid() {
+		if _, isInt := e.Args[len(args)-1].(*IntLit); isInt {
+			// "1..." would be scanned as the float literal "1." followed by ".."
+			args[len(args)-1] = "(" + args[len(args)-1] + ")"
+		}
 		args[len(args)-1] = args[len(args)-1] + "..."
 	}
 	return e.Func.String() + "(" + strings.Join(args, ", ") + ")"
